@@ -13,7 +13,7 @@ import (
 	"strconv"
 
 	"hv/fw"
-	_ "hv/props"
+	_ "hv/props/all"
 )
 
 func main() {
